@@ -37,6 +37,8 @@ def run(chk, repo):
         'C13.c every ALT symbol the writer can produce is accepted by the reader and mapped back to the same type and end rule',
         'C13.d .idx columns agree; checksum validation dominates index loading and raises on every non-equal path',
         'C13.e pointer generation yields the trailing pointer, counts byte offsets, extends on equal keys',
+        'C13.f every pointer of every file is registered in the pool (no path of the registration loop skips one)',
+        'C13.g the .idx checksum is computed over the whole GVF (read-until-EOF loop)',
     ]
     chk.not_decided = ['byte-exact round trip of arbitrary attribute values']
 
@@ -268,7 +270,7 @@ def run(chk, repo):
            'the .idx is loaded without (or before) validating its checksum against the same GVF', key=op.qual + '::validate-before-load', fn=op.qual)
 
     # ------------------------------------------------------------------ e
-    chk.rule('C13.e', 'R-DRAIN on the pointer generator; byte offsets', 5)
+    chk.rule('C13.e', 'R-DRAIN on the pointer generator; byte offsets', 6)
     ip = repo.func('seqvar.GVFIndex:iterate_pointer')
     chk.uses(ip)
     icfg = CFG(ip.node)
@@ -302,8 +304,97 @@ def run(chk, repo):
                 and unparse(kwarg(s.value, 'key')) in ('cur_key', 'key') for s in body)
     chk.ob('C13.e', 'new pointer [line_start, line_end) on key change (previous yielded); end extended on equal key', repo.loc(ip, loop), ok,
            'pointer open/extend/yield logic altered', key=ip.qual + '::open-extend', fn=ip.qual)
+    byte_offsets(chk, repo, 'C13.e', 'seqvar.GVFIndex:iterate_pointer')
     rdp = repo.func('seqvar.GVFIndex:GVFPointer.__iter__')
     t = unparse(rdp.node)
     ok = 'self.handle.seek(offset, 1)' in t and 'offset = self.start - cur' in t and 'self.handle.read(len(self))' in t and ".decode('utf-8')" in t
     chk.ob('C13.e', 'pointer reader seeks to start and reads len() bytes, then decodes', rdp.where, ok,
            'GVFPointer.__iter__ byte-range read altered', key=rdp.qual + '::byte-read', fn=rdp.qual)
+
+    # ------------------------------------------------------------------ f
+    chk.rule('C13.f', 'R-COVER: every pointer read from an index / generated from a GVF is registered (no value-based de-duplication across files)', 2)
+    for q in ('seqvar.VariantRecordPoolOnDisk:VariantRecordPoolOnDisk.load_index',
+              'seqvar.VariantRecordPoolOnDisk:VariantRecordPoolOnDisk.generate_index'):
+        g = repo.func(q)
+        chk.uses(g)
+        lps = [l for l in walk_no_nested(g.node) if isinstance(l, ast.For) and isinstance(l.target, ast.Name)
+               and any(call_name(c) in ('append', 'setdefault') for c in G.find_calls(l))]
+        if len(lps) != 1:
+            raise AnalysisError(f"anchor={q}: pointer registration loop not found")
+        v = lps[0].target.id
+
+        def registers(st, v=v):
+            if isinstance(st, ast.Expr) and isinstance(st.value, ast.Call) and call_name(st.value) == 'append' \
+                    and 'self.pointers' in unparse(st.value.func) and [unparse(a) for a in st.value.args] == [v]:
+                return True
+            return isinstance(st, ast.Assign) and 'self.pointers[' in unparse(st.targets[0]) and unparse(st.value) == f"[{v}]"
+        gc = CFG(g.node)
+        n, nsites, wit = G.iter_covers(gc, lps[0], '__always__', registers)
+        chk.paths += n
+        chk.ob('C13.f', f"{g.name}: every `{v}` of the loop is stored in self.pointers ({n} iteration paths, {nsites} sites)", repo.loc(g, lps[0]),
+               nsites > 0 and not wit,
+               'a pointer can pass the loop without being registered' + (f" (path: {'; '.join(wit[0].describe(g.module.relpath)[:5])})" if wit else '') +
+               ': pointers of different GVF files may share key and byte range, so any skip loses all records of that transcript from the later file '
+               '(index and linear scan disagree)', key=q + '::register-all', fn=g.qual)
+
+    # ------------------------------------------------------------------ g
+    chk.rule('C13.g', 'the checksum covers the whole file: digest updates sit in a loop driven by handle.read until EOF', 1)
+    cs = repo.func(':check_sha512')
+    chk.uses(cs)
+    ups = G.find_calls(cs.node, 'update')
+    ok = bool(ups)
+    detail = 'no digest update found'
+    for u in ups:
+        lp = next((a for a in repo.ancestors(u) if isinstance(a, (ast.For, ast.While))), None)
+        if lp is None:
+            ok, detail = False, f"`{unparse(u)}` is not inside a loop: only the first block of the file is hashed"
+            break
+        if isinstance(lp, ast.For):
+            it = lp.iter
+            drv = isinstance(it, ast.Call) and call_name(it) == 'iter' and len(it.args) == 2 and '.read(' in unparse(it.args[0]) \
+                and isinstance(it.args[1], ast.Constant) and it.args[1].value == b''
+            if not drv and not (unparse(it) == 'handle'):
+                ok, detail = False, f"loop iterable `{unparse(it)}` is not read-until-EOF"
+        else:
+            tested = {n.id for n in ast.walk(lp.test) if isinstance(n, ast.Name)}
+            reread = any(isinstance(n, (ast.Assign, ast.NamedExpr)) and '.read(' in unparse(n.value) and
+                         (unparse(n.targets[0]) if isinstance(n, ast.Assign) else n.target.id) in tested for n in ast.walk(lp))
+            const_true = isinstance(lp.test, ast.Constant) and lp.test.value is True and any(isinstance(n, ast.Break) for n in ast.walk(lp))
+            if not (reread or const_true):
+                ok, detail = False, 'while-loop does not re-read the handle into the tested variable'
+    chk.ob('C13.g', 'check_sha512 hashes every block of the handle', cs.where, ok,
+           detail + ' - an edit behind the hashed prefix leaves the checksum unchanged, so a stale .idx is accepted and its byte offsets are used',
+           key=cs.qual + '::whole-file', fn=cs.qual)
+
+
+def byte_offsets(chk, repo, rid, qual):
+    """Typestate on the line variable of a pointer generator: offsets are advanced by len() of the RAW
+    bytes line (before any re-binding such as decode), for every line (before the comment skip)."""
+    ip = repo.func(qual)
+    chk.uses(ip)
+    c = CFG(ip.node)
+    loops = [n for n in walk_no_nested(ip.node) if isinstance(n, ast.For) and unparse(n.iter) == 'handle' and isinstance(n.target, ast.Name)]
+    if len(loops) != 1:
+        raise AnalysisError(f"anchor={qual}: `for line in handle` not found")
+    lp = loops[0]
+    L = lp.target.id
+    head = c.node_for(lp)
+    acc = [n for n in c.nodes if n.kind == 'stmt' and isinstance(n.ast, ast.AugAssign) and isinstance(n.ast.op, ast.Add)
+           and isinstance(n.ast.value, ast.Call) and call_name(n.ast.value) == 'len']
+    ok = len(acc) == 1 and unparse(acc[0].ast.value.args[0]) == L
+    detail = f"offset accumulation statements: {[norm_stmt(a.ast) for a in acc]}"
+    if ok:
+        rebinds = [n for n in c.nodes if n.kind == 'stmt' and L in G.assigned_names(n.ast) and isinstance(n.ast, (ast.Assign, ast.AugAssign))
+                   or (n.kind == 'stmt' and isinstance(n.ast, ast.AnnAssign) and n.ast.value is not None and L in G.assigned_names(n.ast))]
+        early = [r for r in rebinds if acc[0].id in c.reachable(r.id, avoid=[head])]
+        if early:
+            ok = False
+            detail = f"`{norm_stmt(early[0].ast)}` re-binds `{L}` before `{norm_stmt(acc[0].ast)}`: the offset advances by the number of characters, not bytes"
+        skips = [n for n in c.nodes if n.kind == 'test' and any(isinstance(a, ast.For) and a is lp for a in repo.ancestors(n.ast))
+                 and not c.dominates(acc[0].id, n.id)]
+        if ok and skips:
+            ok = False
+            detail = f"the test `{unparse(skips[0].ast)}` can leave the iteration before the line's bytes were counted"
+    chk.ob(rid, f"{ip.name}: offsets advance by len() of the raw bytes line, for every line, before any re-binding / skip", repo.loc(ip, lp), ok,
+           detail + ' - pointers are byte offsets used with seek()/read() on the file opened in binary mode, so every pointer behind a multi-byte '
+           'character (or a skipped line) is shifted and loads the wrong byte range', key=qual + '::raw-byte-offsets', fn=ip.qual)
